@@ -29,7 +29,8 @@ TrDiscover == /\ IsOp("Discover")
                  /\ Clause("discovers_exactly_the_species_with_all_three_files", found = AbsDiscovered(cfg))
                  /\ Clause("never_re_adds_explicit_species", found \cap cfg.explicit = {})
                  /\ Clause("each_species_gets_exactly_its_own_files",
-                           \A i \in 1..Len(R) : R[i][2] = <<R[i][1], "topCG">> /\ R[i][3] = <<R[i][1], "topAA">> /\ R[i][4] = <<R[i][1], "coorAA">>)
+                           \A i \in 1..Len(R) : R[i][2] = <<R[i][1], "topCG">> /\ R[i][3] = <<R[i][1], "topAA">>
+                                               /\ [sp |-> R[i][4][1], role |-> R[i][4][2]] \in CoordsFor(cfg, R[i][1]))
 TrMain == /\ IsOp("Main")
           /\ Clause("command_line_run_completes", Ev[l].ran)
           /\ Clause("output_at_requested_or_default_path", Ev[l].outAtExpectedPath)
